@@ -117,9 +117,22 @@ class EdivInstruction(MichelsonInstruction, prim='EDIV'):
 
 
 def execute_shift(prim: str, stack: MichelsonStack, stdout: List[str], shift: Callable[[Tuple[int, int]], int]):
-    a, b = cast(Tuple[NatType, NatType], stack.pop2())
-    a.assert_type_equal(NatType)
+    a, b = cast(Tuple[Union[NatType, BytesType], NatType], stack.pop2())
+    a.assert_type_in(NatType, BytesType)
     b.assert_type_equal(NatType)
+    res: Union[NatType, BytesType]
+    if isinstance(a, BytesType):
+        # bytes are shifted as big-endian bit strings: LSL grows by ceil(n / 8) bytes, LSR drops n // 8 bytes
+        if prim == 'LSL':
+            assert int(b) <= 64000, f'shift overflow {int(b)}, should not exceed 64000'
+            length = len(a) + (int(b) + 7) // 8
+        else:
+            length = max(0, len(a) - int(b) // 8)
+        c = shift((int.from_bytes(bytes(a), 'big'), int(b)))
+        res = BytesType.from_value(c.to_bytes(length, 'big'))
+        stack.push(res)
+        stdout.append(format_stdout(prim, [a, b], [res]))
+        return
     assert int(b) < 257, f'shift overflow {int(b)}, should not exceed 256'
     c = shift((int(a), int(b)))
     res = NatType.from_value(c)
